@@ -117,7 +117,11 @@ class Report(object):
             for k in known:
                 if k.get("status") != "known":
                     continue
-                if k.get("obligation") != v["obligation"]:
+                if k.get("id"):
+                    # findings with an id are matched by the signature the check computed for this very violation
+                    if v.get("known_id") != k["id"]:
+                        continue
+                elif k.get("obligation") != v["obligation"]:
                     continue
                 # the listed witness must still fail in the listed way on the current tree
                 still = None
@@ -139,7 +143,7 @@ class Report(object):
                 real_violations.append(v)
         seen = set()
         for v, k in acknowledged:
-            key = (k.get("obligation"), json.dumps(k.get("witness"), sort_keys=True, default=str))
+            key = (k.get("id") or k.get("obligation"), json.dumps(k.get("witness"), sort_keys=True, default=str))
             if key in seen:
                 continue
             seen.add(key)
